@@ -5,6 +5,9 @@ import (
 	"fmt"
 	"strings"
 
+	"github.com/goghcrow/yae/parser/ast"
+	"github.com/goghcrow/yae/parser/pos"
+
 	"verif/mc/engine"
 	"verif/mc/real"
 	"verif/mc/ref"
@@ -20,13 +23,55 @@ func (c11) ID() string { return "C11" }
 func (c11) Meta(tier string) engine.Meta {
 	return engine.Meta{
 		Level: "model_checking",
-		Rule: "the bytecode (read through the build-tag export hook) of every accepted program of the C03 corpus — objects, partial operations, grids, literal forms, compositions, effects, nested lazies, the size families (43…3000 stack slots / constants; thorough up to 70000), branches longer than 255 and 65535 bytes, 255 / 256 arguments, dynamic calls — including thunk bodies recursively. Oracle: an independent abstract interpreter over the instruction set: complete linear decode into known opcodes; constant / size / argc operands in range and of the right kind (value, name, type of the right constructor, function whose laziness matches the call opcode and whose arity matches argc, thunk); every jump strictly forward to an instruction boundary inside the code; the typed abstract stack agrees on all paths, never underflows, matches each opcode's operand kinds, and has depth exactly 1 (of the thunk's / program's type) at the final return. Forward-only jumps + finite code imply at most one step per emitted instruction. non-trivial = programs with a jump, a call opcode or a thunk",
+		Rule: "the bytecode (read through the build-tag export hook) of every accepted program of the C03 corpus — objects, partial operations, grids, literal forms, compositions, effects, nested lazies, the size families (43…3000 stack slots / constants; thorough up to 70000), branches longer than 255 and 65535 bytes, 255 / 256 arguments, dynamic calls — including thunk bodies recursively; plus list / map / object literals and lazy-call thunk bodies with 255…70000 members built directly as trees (the VM must either refuse with its capacity assertion or emit safe code). Oracle: an independent abstract interpreter over the instruction set: complete linear decode into known opcodes; constant / size / argc operands in range and of the right kind (value, name, type of the right constructor, function whose laziness matches the call opcode and whose arity matches argc, thunk); every jump strictly forward to an instruction boundary inside the code; the typed abstract stack agrees on all paths, never underflows, matches each opcode's operand kinds, and has depth exactly 1 (of the thunk's / program's type) at the final return. Forward-only jumps + finite code imply at most one step per emitted instruction. non-trivial = programs with a jump, a call opcode or a thunk",
 		Bound: "as the C03 corpus",
 		Assumptions: []string{"operand layouts and stack effects per mnemonic are written from vm/opcode.go and the instruction's documented meaning (mc/ref/bc.go); opcode numbers are resolved by name through the hook"},
 	}
 }
 
+// wideTree builds, without the lexer, a literal with n members.
+func wideTree(kind string, n int) ast.Expr {
+	one := func() ast.Expr { return ast.Num("1", pos.Unknown) }
+	switch kind {
+	case "list":
+		els := make([]ast.Expr, n)
+		for i := range els {
+			els[i] = one()
+		}
+		return ast.Call(ast.Var("len", pos.Unknown), []ast.Expr{ast.List(els, pos.Unknown)}, pos.UnknownCol, pos.Unknown)
+	case "map":
+		ps := make([]ast.Pair, n)
+		for i := range ps {
+			ps[i] = ast.Pair{Key: ast.Num(fmt.Sprint(i), pos.Unknown), Val: one()}
+		}
+		return ast.Map(ps, pos.Unknown)
+	case "obj":
+		fs := make([]ast.Field, n)
+		for i := range fs {
+			fs[i] = ast.Field{Name: fmt.Sprintf("f%d", i), Val: one()}
+		}
+		return ast.Member(ast.Obj(fs, pos.Unknown), ast.Var("f0", pos.Unknown), pos.UnknownCol, pos.Unknown)
+	case "thunk-list":
+		els := make([]ast.Expr, n)
+		for i := range els {
+			els[i] = one()
+		}
+		return ast.Call(ast.Var("second", pos.Unknown), []ast.Expr{one(), ast.List(els, pos.Unknown)}, pos.UnknownCol, pos.Unknown)
+	}
+	return one()
+}
+
 func (c11) Generate(tier string, yield func(*engine.Case) bool) {
+	for _, kind := range []string{"list", "map", "obj", "thunk-list"} {
+		for _, n := range []int{255, 256, 257, 32767, 32768, 65534, 65535, 65536, 65537, 70000} {
+			if kind == "map" && n > 40000 && n != 65536 {
+				continue // 2n constants: the capacity boundary for maps is at n = 32767
+			}
+			if !yield(&engine.Case{Family: "wide-ast-" + kind, Key: fmt.Sprint(n), Args: []string{"wideast", kind, fmt.Sprint(n)}}) {
+				return
+			}
+		}
+	}
 	c03{}.Generate(tier, func(c *engine.Case) bool {
 		if len(c.Args) > 0 && c.Args[0] == "dyn" {
 			cp := *c
@@ -58,6 +103,28 @@ func (c11) Run(c *engine.Case) *engine.Result {
 		}
 	case len(c.Args) > 0 && c.Args[0] == "dynsrc":
 		return verifyDyn(c)
+	case len(c.Args) > 0 && c.Args[0] == "wideast":
+		var n int
+		fmt.Sscan(c.Args[2], &n)
+		code, accepted, refused, msg := real.CompileBytecodeAST(h, wideTree(c.Args[1], n))
+		res.NonTrivial = true
+		switch {
+		case !accepted:
+			res.Outcome = "rejected"
+			res.Violations = append(res.Violations, vf("harness-wide-rejected", "%s %d: %s", c.Args[1], n, stable(msg)))
+		case refused:
+			res.Outcome = "capacity-refusal"
+		case code == nil:
+			res.Violations = append(res.Violations, vf("codegen-panic", "%s literal with %d members: %s", c.Args[1], n, stable(msg)))
+		default:
+			st := &ref.BCStats{}
+			if err := ref.VerifyBC(real.ToBCProgram(code), real.BCEnvFor(env), nil, st, 0); err != nil {
+				res.Violations = append(res.Violations, vf("bytecode-unsafe", "%s literal with %d members: %v", c.Args[1], n, err))
+			}
+			res.States = st.Instructions
+			res.Outcome = "ok"
+		}
+		return res
 	default:
 		d := loadProg(c)
 		src, env = d.Term.Render(), d.Env
